@@ -58,39 +58,55 @@ def py_outcomes(P, mode, rule, s, i):
     return out
 
 
-def run(ctx, P, mode, n_grammars, n_strings, seed, gen_kwargs=None, all_offsets=True, maxlen=10,
-        depth=3, max_report=5):
-    """Returns (stats, disagreements)."""
+def gen_cases(seed, n_grammars, n_strings, gen_kwargs=None, all_offsets=True, maxlen=10, depth=3):
+    """Deterministic in `seed` (independent of the hash seed): [(grammar, [(s, i), ...]), ...]"""
     rng = random.Random(seed)
     gg = G.GrammarGen(rng, **(gen_kwargs or {}))
-    blocks = []
-    expected = []  # per block: list of (s, i, py outcome)
-    grammars = []
-    stats = Counter()
-    opmix = Counter()
-    for gi in range(n_grammars):
+    out = []
+    for _ in range(n_grammars):
         gr = gg.grammar(depth=depth)
-        grammars.append(gr)
-        for k, v in G.grammar_stats(gr).items():
-            opmix[k] += v
-        cls, rules = G.build(P, gr)
-        enc = lib.Encoder(P, rules)
-        lines = enc.grammar_lines()
-        exp = []
         strings = G.strings_for(rng, gr, n_strings, maxlen=maxlen)
         seen = set()
+        cases = []
         for s in strings:
             if s in seen:
                 continue
             seen.add(s)
             for i in offsets_for(rng, s, all_offsets):
-                pys = py_outcomes(P, mode, rules[0], s, i)
-                cl = case_lines(mode, s, i)
-                for line, py in zip(cl, pys):
-                    lines.append(line)
-                    exp.append((s, i, line, py))
-        blocks.append(lines)
-        expected.append(exp)
+                cases.append((s, i))
+        out.append((gr, cases))
+    return out
+
+
+def eval_py(P, mode, gcases):
+    """Runs the real code; returns per grammar (wire grammar lines, [(s, i, query line, outcome)])."""
+    res = []
+    for gr, cases in gcases:
+        cls, rules = G.build(P, gr)
+        enc = lib.Encoder(P, rules)
+        glines = enc.grammar_lines()
+        exp = []
+        for s, i in cases:
+            pys = py_outcomes(P, mode, rules[0], s, i)
+            for line, py in zip(case_lines(mode, s, i), pys):
+                exp.append((s, i, line, py))
+        res.append((glines, exp))
+    return res
+
+
+def run(ctx, P, mode, n_grammars, n_strings, seed, gen_kwargs=None, all_offsets=True, maxlen=10,
+        depth=3, max_report=5, precomputed=None):
+    """Returns (info, disagreements)."""
+    gcases = gen_cases(seed, n_grammars, n_strings, gen_kwargs, all_offsets, maxlen, depth)
+    grammars = [g for g, _ in gcases]
+    stats = Counter()
+    opmix = Counter()
+    for gr in grammars:
+        for k, v in G.grammar_stats(gr).items():
+            opmix[k] += v
+    evald = precomputed if precomputed is not None else eval_py(P, mode, gcases)
+    blocks = [glines + [line for _, _, line, _ in exp] for glines, exp in evald]
+    expected = [exp for _, exp in evald]
     outs = lib.run_driver_parallel(blocks)
     disagreements = []
     nontrivial = set()
